@@ -1,0 +1,1 @@
+//! Hooks into `event` and the `SwarmDriver` handlers (child module of `event`).
